@@ -10,40 +10,8 @@ RULE = ("generated op programs (makedir/create/open/write/truncate/remove/remove
 ORACLES = tuple("io_bounds".split(","))
 
 
-def fill_cases(ctx):
-    """'... including filling the volume until it reports no space': volumes whose data area ends in a PARTIAL cluster (the sectors behind
-    the last whole cluster belong to the volume but to no cluster), at non-zero offsets; files of several clusters, then of one byte, until
-    every request is refused; one file removed and the space filled again"""
-    from .. import fatspec, history
-    out = []
-    geoms = [dict(ft=12, clusters=40, spc=4, rootent=32, extra_sectors=3), dict(ft=16, clusters=4090, spc=2, rootent=32, extra_sectors=1),
-             dict(ft=32, clusters=70, spc=8, extra_sectors=7), dict(ft=12, clusters=25, spc=2, bps=1024, rootent=16, extra_sectors=1)]
-    if ctx.tier == "quick":
-        geoms = [geoms[0], geoms[2], geoms[3]]
-    for gi, g in enumerate(geoms):
-        kw = dict(g)
-        ft = kw.pop("ft")
-        img, info = fatspec.build(ft, **kw)
-        bpc = info["bpc"]
-        big = g["clusters"] > 1000
-        ops = [["makedir", "/f"]]
-        n = 0
-        per = (g["clusters"] // 12 + 1) if not big else g["clusters"] // 6
-        for i in range(16 if not big else 8):
-            ops += [["open", f"h{n}", f"/f/BIG{i:02d}.BIN", "w"], ["write", f"h{n}", "%02x" % (0x41 + i) * (per * bpc)], ["hclose", f"h{n}"]]
-            n += 1
-        for i in range(6):
-            ops += [["open", f"h{n}", f"/f/ONE{i:02d}.BIN", "w"], ["write", f"h{n}", "7a"], ["hclose", f"h{n}"]]
-            n += 1
-        ops += [["remove", "/f/BIG01.BIN"], ["open", f"h{n}", "/f/AGAIN.BIN", "w"], ["write", f"h{n}", "62" * ((per + 1) * bpc)], ["hclose", f"h{n}"],
-                ["open", f"h{n + 1}", "/f/AGAIN2.BIN", "w"], ["write", f"h{n + 1}", "63" * (per * bpc)], ["hclose", f"h{n + 1}"], ["listdir", "/f"], ["closefs"]]
-        meta = dict(source="build", ft=ft, **kw)
-        out.append(history.Case(f"fill{ft}-partial-last-cluster-{gi}", img, ops, mount=dict(encoding="ibm437", offset=(0, 1536, 4096, 512)[gi % 4]), meta=meta))
-    return out
-
-
 def run(ctx):
-    _hist.run_histories(ctx, ORACLES, nprog=ctx.scale(24, 400), nops=ctx.scale(30, 80), remount_every=False, extra_cases=fill_cases(ctx),
+    _hist.run_histories(ctx, ORACLES, nprog=ctx.scale(24, 400), nops=ctx.scale(30, 80), remount_every=False,
                         mounts=[dict(encoding="ibm437", offset=0), dict(encoding="ibm437", offset=4096, lazy_load=False), dict(encoding="cp850", offset=1536)])
 
 
